@@ -265,7 +265,7 @@ class KernelCheck(object):
         from concurrent.futures import ThreadPoolExecutor
         tmo = dict((it['name'], it.get('timeout', 60)) for it in items)
         dif = dict((it['name'], it.get('diff', False)) for it in items)
-        pend = [(r, o) for r in res for o in r['obligations'] if o['status'] == 'pending']
+        pend = [(r, o) for r in res for o in r.get('obligations', []) if o['status'] == 'pending']
 
         def ext(ro):
             r, o = ro
@@ -305,7 +305,7 @@ class KernelCheck(object):
         with ThreadPoolExecutor(self.ext_jobs) as ex:
             list(ex.map(ext, pend))
         for r in res:
-            for o in r['obligations']:
+            for o in r.get('obligations', []):
                 o.pop('nondet_decl', None)
                 o.pop('file', None)
 
